@@ -341,3 +341,64 @@ _def(pwf, [pp], _pcase(pp, [
 ], z3.BoolVal(True)))
 _def(pmwf, [pm], z3.If(PMp.is_('pnil', pm), True,
                                       z3.And(pwf(PMp.get('pcons', 'pval', pm)), pmwf(PMp.get('pcons', 'ptl', pm)))))
+
+# ---- metavariable sets, map inclusion (matching) -----------------------------------------------------------------------------
+IntSet = z3.SetSort(I)
+mvset = _rec('mvset', MPat, IntSet)
+_def(mvset, [p], _case(p, [
+    ('Implies', lambda l, r: z3.SetUnion(mvset(l), mvset(r))),
+    ('App', lambda l, r: z3.SetUnion(mvset(l), mvset(r))),
+    ('Exists', lambda v, s: mvset(s)),
+    ('Mu', lambda v, s: mvset(s)),
+    ('MetaVar', lambda n, a, b, c, d, e: z3.SetAdd(z3.EmptySet(I), n)),
+    ('ESubst', lambda b, v, pl: z3.SetUnion(mvset(b), mvset(pl))),
+    ('SSubst', lambda b, v, pl: z3.SetUnion(mvset(b), mvset(pl))),
+], z3.EmptySet(I)))
+
+mm2 = z3.Const('mm2', MMap)
+# submap(a, b): every entry of a is an entry of b (first-match lookup in b)
+submap = _rec('submap', MMap, MMap, B)
+_def(submap, [mm, mm2], z3.If(MMp.is_('mnil', mm), True,
+                              z3.And(mhas(mm2, MMp.get('mcons', 'mkey', mm)),
+                                     mget(mm2, MMp.get('mcons', 'mkey', mm)) == MMp.get('mcons', 'mval', mm),
+                                     submap(MMp.get('mcons', 'mtl', mm), mm2))))
+# covers(p, m): every metavariable id occurring in p is a key of m
+covers = _rec('covers', MPat, MMap, B)
+_def(covers, [p, mm], _case(p, [
+    ('Implies', lambda l, r: z3.And(covers(l, mm), covers(r, mm))),
+    ('App', lambda l, r: z3.And(covers(l, mm), covers(r, mm))),
+    ('Exists', lambda v, s: covers(s, mm)),
+    ('Mu', lambda v, s: covers(s, mm)),
+    ('MetaVar', lambda n, a, b, c, d, e: mhas(mm, n)),
+    ('ESubst', lambda b, v, pl: z3.And(covers(b, mm), covers(pl, mm))),
+    ('SSubst', lambda b, v, pl: z3.And(covers(b, mm), covers(pl, mm))),
+], z3.BoolVal(True)))
+# nosubst(p): no pending substitution anywhere in p
+nosubst = _rec('nosubst', MPat, B)
+_def(nosubst, [p], _case(p, [
+    ('Implies', lambda l, r: z3.And(nosubst(l), nosubst(r))),
+    ('App', lambda l, r: z3.And(nosubst(l), nosubst(r))),
+    ('Exists', lambda v, s: nosubst(s)),
+    ('Mu', lambda v, s: nosubst(s)),
+    ('ESubst', lambda b, v, pl: z3.BoolVal(False)),
+    ('SSubst', lambda b, v, pl: z3.BoolVal(False)),
+], z3.BoolVal(True)))
+# distinct keys
+mdistinct = _rec('mdistinct', MMap, B)
+_def(mdistinct, [mm], z3.If(MMp.is_('mnil', mm), True,
+                            z3.And(z3.Not(mhas(MMp.get('mcons', 'mtl', mm), MMp.get('mcons', 'mkey', mm))),
+                                   mdistinct(MMp.get('mcons', 'mtl', mm)))))
+
+# ---- functional update of maps (python dict assignment: replace in place, else append) ---------------------------------------
+vv = z3.Const('vv', MPat)
+mset = _rec('mset', MMap, I, MPat, MMap)
+_def(mset, [mm, k, vv], z3.If(MMp.is_('mnil', mm), MMp.mk('mcons', k, vv, MMp.mk('mnil')),
+                              z3.If(MMp.get('mcons', 'mkey', mm) == k, MMp.mk('mcons', k, vv, MMp.get('mcons', 'mtl', mm)),
+                                    MMp.mk('mcons', MMp.get('mcons', 'mkey', mm), MMp.get('mcons', 'mval', mm),
+                                           mset(MMp.get('mcons', 'mtl', mm), k, vv)))))
+pv = z3.Const('pv', PPat)
+pset = _rec('pset', PMap, I, PPat, PMap)
+_def(pset, [pm, k, pv], z3.If(PMp.is_('pnil', pm), PMp.mk('pcons', k, pv, PMp.mk('pnil')),
+                              z3.If(PMp.get('pcons', 'pkey', pm) == k, PMp.mk('pcons', k, pv, PMp.get('pcons', 'ptl', pm)),
+                                    PMp.mk('pcons', PMp.get('pcons', 'pkey', pm), PMp.get('pcons', 'pval', pm),
+                                           pset(PMp.get('pcons', 'ptl', pm), k, pv)))))
